@@ -191,7 +191,9 @@ def build_input(form, kind, texts, wd, cl, tf, tag):
         return gffutils.DataIterator(p, **kw), ({} if form == "DataIterator" else dict(transform=tf)), src
     if form == "FeatureDB":
         p = dbutil.write_text(wd, "src%s.gff" % tag, text)
-        sdb = gffutils.create_db(p, ":memory:", verbose=False, disable_infer_genes=True, disable_infer_transcripts=True)
+        # the source database files its features under keys of its own: the new import has to key them by ITS id_spec
+        sdb = gffutils.create_db(p, ":memory:", verbose=False, disable_infer_genes=True, disable_infer_transcripts=True,
+                                 id_spec=lambda f: "autoincrement:src")
         return sdb, kw, src
     raise ValueError(form)
 
